@@ -16,11 +16,85 @@ import os
 from fractions import Fraction
 
 from .. import translate
+from . import normalize
 from ..translate import Untranslatable
 
 TCU = "fairlearn/postprocessing/_tradeoff_curve_utilities.py"
 TOP = "fairlearn/postprocessing/_threshold_optimizer.py"
 BASE = ["true_positives", "false_positives", "true_negatives", "false_negatives"]
+# the local variables, in order of first binding, of the functions of _tradeoff_curve_utilities.py as the lifters were
+# written against them (normalize.canon_tree: new temporaries are inlined, renamed locals get these names back)
+PINNED_TCU = {
+    "_extend_confusion_matrix": [],
+    "_tradeoff_curve": ["points_sorted", "points_selected"],
+    "_filter_points_to_get_convex_hull": ["selected", "r2", "r1", "r0"],
+    "_interpolate_curve": ["x_values", "y_values", "content_values", "content_col_0", "content_col_1",
+                           "interpolation_indices", "x_distance_from_next_data_point", "x_distance_between_data_points",
+                           "p0", "p1", "y"],
+    "_get_interpolation_indices": ["indices"],
+    "_calculate_tradeoff_points": ["scores", "labels", "n", "n_positive", "n_negative", "i", "count", "x_list", "y_list",
+                                   "operation_list", "threshold", "actual_counts", "flipped_counts", "operations",
+                                   "operation_string", "counts", "x", "y", "operation"],
+    "_get_scores_labels_and_counts": ["data_sorted", "scores", "labels", "n", "n_positive", "n_negative"],
+    "_get_counts": ["n", "n_positive", "n_negative"],
+}
+TCU_PURE_FUNCS = ("METRIC_DICT", "ThresholdOperation", "_extend_confusion_matrix")
+
+
+PINNED_TOP = {
+    "ThresholdOptimizer.fit": ["_", "sensitive_feature_vector", "y_val", "scores", "threshold_optimization_method"],
+    "ThresholdOptimizer._threshold_optimization_for_simple_constraints": [
+        "n", "overall_tradeoff_curve", "data_grouped_by_sensitive_feature", "sensitive_feature_value", "group",
+        "p_sensitive_feature_value", "metrics_curve_convex_hull", "i_best", "interpolation_dict", "best_interpolation"],
+    "ThresholdOptimizer._threshold_optimization_for_equalized_odds": [
+        "data_grouped_by_sensitive_feature", "n", "n_positive", "n_negative", "y_values", "sensitive_feature_value", "group",
+        "roc_convex_hull", "counts", "objective_values", "i_best_EO", "interpolation_dict", "roc_result", "p_ignore",
+        "difference_from_best_predictor_for_sensitive_feature", "vertical_distance_from_diagonal"],
+    "ThresholdOptimizer.predict": [],
+    "ThresholdOptimizer._pmf_predict": [],
+    "_reformat_and_group_data": ["data_dict", "sensitive_feature_name"],
+    "_reformat_data_into_dict": ["attribute_column", "a"],
+}
+TOP_PURE_FUNCS = ("METRIC_DICT", "_extend_confusion_matrix", "_tradeoff_curve", "_interpolate_curve", "Bunch",
+                  "_reformat_and_group_data", "InterpolatedThresholder")
+
+
+# SIMPLE_CONSTRAINTS is only looked up by key (its keys reach the user through `sorted(...)`): the order of its entries
+# is not observable, so the same mapping is emitted in the pinned order
+PINNED_SIMPLE = ["selection_rate_parity", "demographic_parity", "false_positive_rate_parity", "false_negative_rate_parity",
+                 "true_positive_rate_parity", "true_negative_rate_parity"]
+
+
+def pinned_dict_order(pairs):
+    keys = [k for k, _ in pairs]
+    if sorted(keys) == sorted(PINNED_SIMPLE) and len(set(keys)) == len(keys):
+        d = dict(pairs)
+        return [(k, d[k]) for k in PINNED_SIMPLE]
+    return pairs
+
+
+def parse_top(repo):
+    tree = normalize.inline_module_numbers(normalize.parse(translate._read(repo, TOP)), strings=True)
+    return normalize.canon_tree(tree, PINNED_TOP, extra_funcs=TOP_PURE_FUNCS)
+
+
+def parse_tcu(repo):
+    tree = normalize.inline_module_numbers(normalize.parse(translate._read(repo, TCU)))
+    return normalize.canon_tree(tree, PINNED_TCU, extra_funcs=TCU_PURE_FUNCS)
+
+
+# the arithmetic terms this lifter emits for the pinned source (see tradeoff.PINNED_TERMS)
+PINNED_TERMS = [
+    "(x.true_positives + x.false_positives)", "(x.true_negatives + x.false_negatives)", "(x.true_positives + x.false_negatives)",
+    "(x.true_negatives + x.false_positives)", "(((x.true_positives + x.true_negatives) + x.false_positives) + x.false_negatives)",
+    "((x.true_positives + x.true_negatives) / x.n)",
+    "(((((1 : Rat) / 2) * x.true_positives) / x.positives) + ((((1 : Rat) / 2) * x.true_negatives) / x.negatives))",
+    "(npos * y)", "(nneg * x)", "(nneg * ((1 : Rat) - x))", "(npos * ((1 : Rat) - y))",
+]
+
+
+def _pin(term):
+    return normalize.lean_prefer(term, PINNED_TERMS)
 DERIVED = ["predicted_positives", "predicted_negatives", "positives", "negatives", "n"]
 
 
@@ -100,7 +174,7 @@ def _metric_dict(tree):
                     raise Untranslatable(f"threshold lifter: unknown confusion field {node.attr}")
                 return f"x.{node.attr}"
             return None
-        out.append((name, _expr(v.body, atom)))
+        out.append((name, _pin(_expr(v.body, atom))))
     return out
 
 
@@ -125,7 +199,7 @@ def _extend(tree):
                 raise Untranslatable(f"threshold lifter: unknown name {node.id} in _extend_confusion_matrix")
             return f"x.{node.id}"
         return None
-    return [(d, _expr(kw[d], atom)) for d in DERIVED]
+    return [(d, _pin(_expr(kw[d], atom))) for d in DERIVED]
 
 
 def _sweep(tree):
@@ -167,7 +241,7 @@ def _sweep(tree):
                 return "npos"
             raise Untranslatable(f"threshold lifter: unknown name {node.id} in sweep counts")
         return None
-    res = {t: {b: _expr(found[t][b], atom) for b in BASE} for t in found}
+    res = {t: {b: _pin(_expr(found[t][b], atom)) for b in BASE} for t in found}
     return res, ops
 
 
@@ -197,7 +271,7 @@ def _eo(tree):
                 return "npos"
             raise Untranslatable(f"threshold lifter: unknown name {node.id} in equalized-odds counts")
         return None
-    counts = {b: _expr(call[b], atom) for b in BASE}
+    counts = {b: _pin(_expr(call[b], atom)) for b in BASE}
     # x/y metric chosen in fit() for equalized odds
     fit = _find_func(tree, "fit")
     xy = {}
@@ -228,8 +302,8 @@ def _cm(fields, indent="  "):
 
 @translate.lifter
 def lift_threshold(repo):
-    t1 = ast.parse(translate._read(repo, TCU))
-    t2 = ast.parse(translate._read(repo, TOP))
+    t1 = parse_tcu(repo)
+    t2 = parse_top(repo)
     metrics = _metric_dict(t1)
     derived = _extend(t1)
     sweep, ops = _sweep(t1)
@@ -242,6 +316,7 @@ def lift_threshold(repo):
     if not isinstance(simple, ast.Dict):
         raise Untranslatable("threshold lifter: SIMPLE_CONSTRAINTS is not a dict literal")
     simple = [(_str_const(k, "constraint"), _str_const(v, "metric")) for k, v in zip(simple.keys, simple.values)]
+    simple = pinned_dict_order(simple)
 
     def strset(name):
         v = _find_assign(t2, name)
